@@ -1,4 +1,5 @@
 pub mod query;
+pub mod readq;
 pub mod rt;
 pub mod rtree;
 pub mod zoom;
@@ -9,6 +10,7 @@ use std::path::Path;
 /// Subcommands that do not follow the per-case protocol.
 pub fn special(cmd: &str, _seed: u64, tier: Tier, _scratch: &Path, _arg: &str) -> Option<i32> {
     match cmd {
+        "readq" => Some(readq::run(_arg)),
         "c05-count" => {
             println!("{}", rtree::shapes(tier).len());
             Some(0)
